@@ -97,6 +97,14 @@ Fixpoint take_body (size : Z) (l : list frame) (acc : bytes) : option bytes :=
        | [] => None
        end.
 
+(* what the broker sent in answer to the Basic.Get: everything from the GetOk / GetEmpty on
+   (a returned message and its content may have come first) *)
+Fixpoint from_get_reply (l : list frame) : list frame :=
+  match l with
+  | [] => []
+  | f :: r => if fname_eqb (f_name f) NGetOk || fname_eqb (f_name f) NGetEmpty then l else from_get_reply r
+  end.
+
 Definition c15_ok (i : scenario) (obs : list opobs) : bool :=
   let steps := snd i in
   scan_steps (fun (_ : unit) k st ob =>
@@ -104,7 +112,7 @@ Definition c15_ok (i : scenario) (obs : list opobs) : bool :=
     | AGet =>
       let c := st_chan st in
       let before := prev_snap c steps obs empty_snap k in
-      let fr := on_chan c (ob_delivered ob) in
+      let fr := from_get_reply (on_chan c (ob_delivered ob)) in
       (tt,
        (* no reply bookkeeping is left behind, whatever happened *)
        (Nat.eqb (sn_req (ob_snap ob)) (sn_req before)) && (Nat.eqb (sn_resp (ob_snap ob)) (sn_resp before)) &&
